@@ -129,6 +129,8 @@ impl Source for KaniSource {
 pub struct ReplaySource {
     pub items: std::collections::VecDeque<Vec<u8>>,
     pub consumed: usize,
+    /// reduce out-of-range values modulo the bound instead of rejecting them (smoke mode)
+    pub lenient: bool,
 }
 
 impl ReplaySource {
@@ -136,6 +138,7 @@ impl ReplaySource {
         ReplaySource {
             items: items.into(),
             consumed: 0,
+            lenient: false,
         }
     }
     fn next(&mut self) -> Vec<u8> {
@@ -146,12 +149,33 @@ impl ReplaySource {
     }
 }
 
+impl ReplaySource {
+    /// smoke mode: an endless pseudo-random stream instead of recorded values (native
+    /// validation of the harness bodies and the reference model; not a verdict)
+    pub fn random(seed: u64) -> Self {
+        let mut x = seed.wrapping_mul(0x9E3779B97F4A7C15) | 1;
+        let mut items = Vec::with_capacity(4096);
+        for _ in 0..4096 {
+            x ^= x << 13;
+            x ^= x >> 7;
+            x ^= x << 17;
+            items.push(x.to_le_bytes().to_vec());
+        }
+        let mut r = ReplaySource::new(items);
+        r.lenient = true;
+        r
+    }
+}
+
 impl Source for ReplaySource {
     fn pick(&mut self, n: u8) -> u8 {
         let v = self.next()[0];
         if n.is_power_of_two() {
             v & (n - 1)
         } else {
+            if self.lenient {
+                return v % n;
+            }
             assert!(v < n, "[replay] recorded value {} violates assume(v < {})", v, n);
             v
         }
@@ -167,6 +191,9 @@ impl Source for ReplaySource {
         let mut a = [0u8; 8];
         a[..b.len().min(8)].copy_from_slice(&b[..b.len().min(8)]);
         let v = u64::from_le_bytes(a) as usize;
+        if self.lenient {
+            return v % bound;
+        }
         assert!(v < bound, "[replay] recorded value {} violates assume(v < {})", v, bound);
         v
     }
